@@ -103,7 +103,12 @@ class Module:
         known = known_functions().get(self.name)
         if known is None:
             return  # a module that did not exist: nothing is known about it, nothing is assumed
-        new = {q for q, f in self.functions.items() if q not in known and f.parent_func is None}
+        from .inline import body_digest
+
+        # a function of the pinned tree that is gone while a function with the very same body has appeared was RENAMED: it is
+        # the old helper (the rules' callee summaries apply), not a new one
+        vanished = {d for q, d in known.items() if q not in self.functions and d}
+        new = {q for q, f in self.functions.items() if q not in known and f.parent_func is None and body_digest(f.node) not in vanished}
         if not new:
             return
         new_names = {self.functions[q].name for q in new}
@@ -134,6 +139,8 @@ class Module:
             fi = self.functions.get(q)
             if fi is None or not fi.name.startswith("_") or fi.name.startswith("__"):
                 continue
+            if not any(q in inl for inl in self.inlined_helpers.values()):
+                continue  # never read in place anywhere (e.g. not called at all): it stays a function of its own
             nm = fi.name
             own = {id(x) for x in ast.walk(fi.node)}
             uses = []
